@@ -24,7 +24,7 @@ from .units_common import Units
 from .quant_common import Quant, TENSORS, BASES
 
 UBFLAGS = ['--bounds-check', '--pointer-check', '--signed-overflow-check', '--undefined-shift-check', '--div-by-zero-check',
-           '--conversion-check', '--pointer-overflow-check']
+           '--pointer-overflow-check', '--slice-formula']
 LOOKUP_FUNCS = ('Abbreviation', 'ParseEnumeration', 'ConsistentUnit', 'RelatedUnitSystem', 'ConvertInPlace')
 
 
@@ -147,11 +147,13 @@ def lookup_obligations(check, units, T):
         try:
             E = cemit.CEmitter(low)
             # conversion loop routines are irrelevant to whether the lookup hits: left bodyless (havoc)
-            stubbed = []
+            stubbed, stubs = [], []
             if en in units.unit_types:
                 for d in ('To', 'From'):
-                    stubbed += [lf.cname for lf in units.loop_funcs(en, T, d).values()]
-            txt = E.unit(fs, bodyless=stubbed) + harness_for(E, low, fs)
+                    for lf in units.loop_funcs(en, T, d).values():
+                        stubbed.append(lf.cname)
+                        stubs.append('%s { }' % E.proto(lf))
+            txt = E.unit(fs, bodyless=stubbed) + '\n'.join(stubs) + '\n' + harness_for(E, low, fs)
             r = cbmc.verify(txt, os.path.join(check.work, 'cbmc'), re.sub(r'\W+', '_', name), backend='sat', timeout=600, flags=UBFLAGS, unwind=12)
             ob.seconds, ob.backend = r.seconds, r.backend
             hits = [p for p in r.props if 'lookup hits' in p[2]]
@@ -159,8 +161,11 @@ def lookup_obligations(check, units, T):
             ob.text = 'for every enumerator value in [%d, %d] (and every system of units / string where those are parameters): each of the %d lookups in %s dereferences a valid entry; std::function rows are callable; plus CBMC safety obligations (%d properties)' % (
                 lo, hi, len(hits), ', '.join(f.qualname for f in fs)[:300], len(r.props))
             if r.status == 'ok':
-                if len(hits) < len([f for f in fs if f.node.get('name') in ('Abbreviation', 'ConsistentUnit', 'ConvertInPlace')]):
-                    ob.status, ob.detail = 'error', 'vacuity: only %d lookup-hits assertions for %d functions' % (len(hits), len(fs))
+                names = [f.node.get('name') for f in fs]
+                # one assertion per generated table helper (shared by all call sites of that table)
+                expected = ('Abbreviation' in names) + 2 * ('ConvertInPlace' in names) + names.count('ConsistentUnit')
+                if len(hits) < expected:
+                    ob.status, ob.detail = 'error', 'vacuity: only %d lookup-hits assertions, expected at least %d' % (len(hits), expected)
                 else:
                     ob.status = 'discharged'
             elif r.status == 'failed':
@@ -209,11 +214,10 @@ def adjudicate_lookup(check, units, j, ob):
     body += '  }\n'
     if 'ConsistentUnit' in names:
         body += '  for (int s = 0; s <= 3; ++s) { std::printf("system %%d\\n", s); std::fflush(stdout); (void)PhQ::ConsistentUnit<%s>(static_cast<PhQ::UnitSystem>(s)); }\n' % E
-    cpp = '#include <%s>\n#include <PhQ/Unit.hpp>\n#include <PhQ/UnitSystem.hpp>\n#include <cstdio>\nint main() {\n%s  std::printf("done\\n");\n  return 0;\n}\n' % (header_of(en), body)
+    cpp = '// built with -fsanitize=address,undefined\n#define _GLIBCXX_DEBUG 1\n#define _GLIBCXX_ASSERTIONS 1\n#include <%s>\n#include <PhQ/Unit.hpp>\n#include <PhQ/UnitSystem.hpp>\n#include <cstdio>\nint main() {\n%s  std::printf("done\\n");\n  return 0;\n}\n' % (header_of(en), body)
     rec = {'property': 'C20', 'obligation': ob.name, 'function': ob.function, 'source': ob.loc, 'verifier_output': ob.detail, 'cpp': cpp}
     confirmed = False
-    r, err = replay.build_and_run(cpp.replace('#include <cstdio>', '#include <cstdio>\n// built with -fsanitize=address,undefined'), os.path.join(check.work, 'replay'),
-                                  'r_' + re.sub(r'\W+', '_', ob.name), sanitize=True)
+    r, err = replay.build_and_run(cpp, os.path.join(check.work, 'replay'), 'r_' + re.sub(r'\W+', '_', ob.name), sanitize=True)
     if err:
         rec['replay_error'] = err[:800]
     else:
@@ -448,6 +452,10 @@ def ub_obligations(check, units, Q, T):
         for f in fs:
             try:
                 E1 = cemit.CEmitter(low)
+                nobody = [g.qualname for g in E1.closure([f]) if g.body is None]
+                if nobody:
+                    dropped.append((f.qualname, 'calls %s, which is outside the C subset' % nobody[0]))
+                    continue
                 E1.unit([f])
                 good.append(f)
             except Unsupported as e:
@@ -459,8 +467,10 @@ def ub_obligations(check, units, Q, T):
             return ob, dropped, 0
         try:
             E = cemit.CEmitter(low)
+            E.domain_asserts = False      # sqrt/acos of an out-of-domain argument is NaN, not undefined behaviour
+            E.abstract_sqrt = True        # values of square roots are irrelevant to the safety obligations
             txt = E.unit(good) + harness_for(E, low, good)
-            r = cbmc.verify(txt, os.path.join(check.work, 'cbmc'), re.sub(r'\W+', '_', name), backend='sat', timeout=900, flags=UBFLAGS, unwind=4)
+            r = cbmc.verify(txt, os.path.join(check.work, 'cbmc'), re.sub(r'\W+', '_', name), backend='sat', timeout=900, flags=UBFLAGS, unwind=12)
             ob.seconds, ob.backend = r.seconds, r.backend
             ob.text = '%d functions of %s on unconstrained inputs: %d safety properties generated by cbmc (%s) all hold' % (len(good), key, len(r.props), ' '.join(UBFLAGS))
             if r.status == 'ok':
@@ -483,14 +493,66 @@ def ub_obligations(check, units, Q, T):
             continue
         check.add(ob)
         if ob.status == 'failed':
-            rec = {'property': 'C20', 'obligation': ob.name, 'function': ob.function, 'verifier_output': ob.detail,
-                   'cbmc_trace': {k: v for k, v in list((ob.cex or {}).items())[:40]} if isinstance(ob.cex, dict) else None, 'confirmed': False}
-            check.violations.append((ob, write_replay(check, ob, rec), 'no-failing-input-found'))
+            adjudicate_ub(check, low, ob, j[1])
     check.extra['ub_functions_checked'] = nf
     check.extra['ub_functions_outside_subset'] = len(alldropped) + len(skipped)
     check.extra['ub_outside_subset_sample'] = [d[0] + ': ' + d[1] for d in alldropped[:15]]
     if nf < 3000:
         check.error('must-fire: expected >= 3000 functions under the ub obligations, got %d' % nf)
+
+
+def adjudicate_ub(check, low, ob, fs):
+    """Native, under ASan/UBSan and libstdc++ assertions: call the functions of the group whose call tree contains the
+    function named by the failed cbmc property, on fixed finite inputs."""
+    rec = {'property': 'C20', 'obligation': ob.name, 'function': ob.function, 'verifier_output': ob.detail,
+           'cbmc_trace': {k: v for k, v in list((ob.cex or {}).items())[:40]} if isinstance(ob.cex, dict) else None}
+    confirmed = False
+    m = re.search(r'cbmc FAILURE: (\w+?)\.(array_bounds|pointer|overflow|undefined|division|unwind|assertion|pointer_dereference|pointer_arithmetic|pointer_primitives)', ob.detail)
+    culprit = m.group(1) if m else None
+    E = cemit.CEmitter(low)
+    tried = 0
+    for f in fs:
+        try:
+            names = [g.cname for g in E.closure([f])]
+        except Exception:
+            continue
+        if culprit and culprit not in names:
+            continue
+        if tried >= 6:
+            break
+        tried += 1
+        try:
+            inputs = {}
+            k = 0
+            vals = [1.5, -2.5, 3.5, 4.5, -5.5, 6.5, 7.5, -8.5, 9.5, 10.5, 11.5, 12.5]
+            for i, (pn, pt) in enumerate(f.params):
+                if f.kind == 'ctor' and i == 0:
+                    continue
+                vt = pt[1] if pt[0] == 'ptr' else pt
+                n = len(replay.leaf_types(low, vt))
+                if vt[0] == 'enum':
+                    inputs[pn] = [1]
+                elif vt[0] in ('i', 'bool'):
+                    inputs[pn] = [1]
+                else:
+                    from fractions import Fraction
+                    inputs[pn] = [Fraction(vals[(k + q) % len(vals)]) for q in range(n)]
+                    k += n
+            cpp = '#define _GLIBCXX_ASSERTIONS 1\n' + replay.NativeCall(low, f).program(inputs, includes=default_includes(low, f))
+            r, err = replay.build_and_run(cpp, os.path.join(check.work, 'replay'), 'r_%s_%d' % (re.sub(r'\W+', '_', ob.name)[:100], tried), sanitize=True)
+            if err:
+                rec.setdefault('replay_errors', []).append(err[:300])
+                continue
+            if r.returncode != 0:
+                confirmed = True
+                rec.update({'cpp': cpp, 'native_output': r.stdout[-500:], 'native_stderr': r.stderr[-1500:], 'inputs': {k2: [str(x) for x in v] for k2, v in inputs.items()},
+                            'mismatch': ['%s on finite inputs terminates abnormally under -fsanitize=address,undefined with libstdc++ assertions: %s' % (
+                                f.qualname, (r.stderr.strip().split('\n') or [''])[0][:300])]})
+                break
+        except Exception as e:
+            rec.setdefault('replay_errors', []).append('%s: %s' % (type(e).__name__, str(e)[:200]))
+    rec['confirmed'] = confirmed
+    check.violations.append((ob, write_replay(check, ob, rec), '' if confirmed else 'no-failing-input-found'))
 
 
 # -------------------------------------------------------------------------------------------------------------- init
@@ -532,12 +594,12 @@ def init_obligations(check, Q, T):
                 why.append('reads an indeterminate value (%s)' % brief(S.reads_undef[0]))
             res = []
             if f.kind == 'ctor':
-                res = leaves(sc.post[f.params[0][0]])
+                res = defined_leaves(sc.post[f.params[0][0]])
             elif sc.ret is not None:
-                res = leaves(sc.ret)
+                res = defined_leaves(sc.ret)
             for pn, v in sc.post.items():
                 if f.kind != 'ctor' or pn != f.params[0][0]:
-                    res = res + leaves(v)
+                    res = res + defined_leaves(v)
             for i, x in enumerate(res):
                 if x is UNDEF or (isinstance(x, tuple) and mentions_undef(x)):
                     why.append('leaves component %d of its result indeterminate' % i)
@@ -555,10 +617,29 @@ def init_obligations(check, Q, T):
             ob.detail = '; '.join('%s %s' % (f.qualname, ', '.join(w)) for f, w in bad[:4])
         check.add(ob)
         if bad:
-            adjudicate_init(check, low, ob, bad[0][0], T)
+            ctors = [f for f, w in bad if f.kind == 'ctor']
+            adjudicate_init(check, low, ob, (ctors or [bad[0][0]])[0], T)
     check.extra['init_functions_checked'] = n
-    if n < 3000:
-        check.error('must-fire: expected >= 3000 functions under the init obligations, got %d' % n)
+    if n < 2500:
+        check.error('must-fire: expected >= 2500 functions under the init obligations, got %d' % n)
+
+
+def defined_leaves(v):
+    """Leaves that must be determinate: the payload of an optional only counts when the optional is engaged on every path."""
+    from ..symex import TRUE
+    if isinstance(v, dict):
+        if set(v.keys()) == {'has', 'val'}:
+            return [v['has']] + (defined_leaves(v['val']) if v['has'] == TRUE else [])
+        out = []
+        for k in v:
+            out += defined_leaves(v[k])
+        return out
+    if isinstance(v, list):
+        out = []
+        for x in v:
+            out += defined_leaves(x)
+        return out
+    return [v]
 
 
 def mentions_undef(t):
